@@ -4015,7 +4015,9 @@ class LoopNode(ActionSinkNode, ActionSourceNode):
             for trans in accept_state.transitions:
                 if trans.error_handling:
                     trans.handles_else(False).fallthrough().to(sub_dfa.starting_state).attach(*self.loop_start_actions)
-            if not accept_state.transitions:
+            if accept_state[DFTransition.Else] is None:
+                # nothing says what the other symbols do at the end of the body (no transitions at all, or only ones that
+                # continue a pattern): they start the next iteration
                 accept_state[DFTransition.Else] = DFTransition(fallthrough=True).to(sub_dfa.starting_state).attach(*self.loop_start_actions)
 
         for state in sub_dfa.states:
